@@ -1,3 +1,5 @@
+//go:build verif && !no_c18
+
 package main
 
 import (
